@@ -111,6 +111,7 @@ def read_twice(tag, clf):
         o['n1'] = clf.ncmd
         return o
     o['n1'] = clf.ncmd
+    o['sector1'] = getattr(tag, '_current_sector', 0)
     if nd is None:
         return o
     try:
@@ -166,32 +167,36 @@ def mk_raw(c):
 
 
 # ------------------------------------------------------------------------------ reference memory loaders
-def ref_t2_cmds(c, budget, mode, demand):
+def ref_t2_cmds(c, budget, mode, demand, sector=0):
     """exchange() calls of a loader that fetches 16 bytes at a time in ascending order until `demand`
     bytes are loaded or a command is not answered with 16 bytes (READ and the first SECTOR SELECT packet
     are sent up to 3 times when the link fails, the second packet once)"""
     sim = mk_t2(c)
+    sim.sector = sector
     clf = AnyClf(sim, budget, mode)
 
     def send(cmd, tries):
+        r = None
         for _ in range(tries):
             try:
                 return clf.exchange(cmd, 0)
+            except nfc.clf.TimeoutError:
+                r = None
             except nfc.clf.CommunicationError:
-                pass
-        return None
-    loaded, sector, nsense = 0, 0, 0
+                r = 'txerr'
+        return r
+    loaded, nsense = 0, 0
     while loaded < demand:
         if loaded >> 10 != sector:
             r = send(b'\xC2\xFF', 3)
-            if r is None or bytes(r) != b'\x0a':
+            if r is None or isinstance(r, str) or bytes(r) != b'\x0a':
                 break
             r = send(bytes([loaded >> 10, 0, 0, 0]), 1)
             if r is not None:
                 break
             sector = loaded >> 10
         r = send(bytes([0x30, (loaded >> 2) % 256]), 3)
-        if r is None or len(r) != 16:
+        if r is None or isinstance(r, str) or len(r) != 16:
             if r is not None and len(r) == 1 and r[0] & 0xFA == 0:
                 nsense += 1
             break
@@ -349,7 +354,7 @@ def run_t2(run, c):
         to follow it; a model that asks for more than that runs into the end and is reported as a mismatch"""
         return 16 * sum(1 for cmd, r in clf.log[lo:hi] if cmd[:1] == b'\x30' and len(r) == 35) + 64
     lim1 = loaded(n_act, o.get('n1', len(clf.log)))
-    em1 = sim.view(budget1, lim1)[:lim1]
+    em1 = sim.view(budget1, lim1, c['mode'])[:lim1]
 
     def chk1(out, o=o, budget1=budget1):
         st, d = out.rsplit(' d=', 1)
@@ -364,9 +369,9 @@ def run_t2(run, c):
     if 'n2' in o and not str(o['r2']).startswith('exc'):
         budget2 = None if c['stop'] is None else max(c['stop'] - o['n1'], 0)
         lim2 = loaded(o['n1'], o['n2'])
-        em2 = sim.view(budget2, lim2)[:lim2]
+        em2 = sim.view(budget2, lim2, c['mode'], o['sector1'])[:lim2]
 
-        def chk2(out, o=o):
+        def chk2(out, o=o, budget2=budget2):
             st, d = out.rsplit(' d=', 1)
             st = ' '.join(st.split()[:5]) if st.startswith('ndef') else st
             if st != o['r2']:
@@ -374,6 +379,9 @@ def run_t2(run, c):
             exp_changed = (st == 'none') or st.split()[4] != o['r1'].split()[4]
             if o['changed'] != exp_changed:
                 run.mismatch('t2-has_changed', c, o['changed'], exp_changed)
+            want = ref_t2_cmds(c, budget2, c['mode'], int(d), o['sector1'])
+            if o['n2'] - o['n1'] != want:
+                run.mismatch('t2-commands-again', c, o['n2'] - o['n1'], '%d (demand %s)' % (want, d))
         run.model('t2read ' + hexarg(em2), chk2)
     nontrivial = o['r1'] != 'none' or len(clf.log) > n_act + 1
     ck.case(('t2', c['image'], c['beyond'], c['stop'], c['mode'], c['auth'], c['version']), nontrivial,
